@@ -160,8 +160,10 @@ def make_requests(areq):
 
 
 def report(r, entry, iface, exc, witness, what):
+    import re as _re
     sig = f"{entry}:{type(exc).__name__}@{where_in_baize(exc)}"
-    r.violation(sig, dict(witness, iface=iface, entry=entry), f"{iface} {entry} on {what}: {type(exc).__name__}: {str(exc)[:120]}")
+    msg = _re.sub(r"c12-[A-Za-z0-9_]{8}", "c12-*", str(exc))  # (the name of the scratch directory differs from run to run)
+    r.violation(sig, dict(witness, iface=iface, entry=entry), f"{iface} {entry} on {what}: {type(exc).__name__}: {msg[:120]}")
 
 
 def probe_body_under_header(r, name, value):
